@@ -61,6 +61,8 @@ class Interp:
         self.call_hook = None     # f(interp, state, inst, callee_name, args) -> None | list[(state, ret)]
         self.access_hook = None   # f(interp, state, inst, ptr, size, kind)
         self.store_hook = None    # f(interp, state, inst, ptr, value)
+        self.max_peel = MAX_PEEL  # loops whose trip count is decided by constants are executed up to this many times
+        self.max_peel_states = 4
         self.cmp_log = None       # differences compared inside the loop body being analysed (predicate shapes)
         self.ghost_keys = ()      # ghost entries that must be loop-invariant
         self.functions_seen = set()
@@ -1710,7 +1712,7 @@ class Interp:
         self.recording += 1
         ok = False
         try:
-            for k in range(MAX_PEEL + 1):
+            for k in range(self.max_peel + 1):
                 nxt = []
                 for (s, f) in cur:
                     self.eval_phis(fn, header, s, f)
@@ -1720,7 +1722,7 @@ class Interp:
                 if not nxt:
                     ok = True
                     break
-                if len(nxt) > 4:
+                if len(nxt) > self.max_peel_states:
                     break
                 cur = nxt
         except AnalysisBroken:
@@ -1732,7 +1734,7 @@ class Interp:
         # the loop terminates within MAX_PEEL iterations on every path: redo with recording on
         cur = [(st, frm)]
         out = []
-        for k in range(MAX_PEEL + 1):
+        for k in range(self.max_peel + 1):
             nxt = []
             for (s, f) in cur:
                 self.eval_phis(fn, header, s, f)
